@@ -13,7 +13,7 @@ HDR = ("From Coq Require Import ZArith List String Bool.\nImport ListNotations.\
        "From L21 Require Import Base.Hex Gds.GdsData Raw.RawData Raw.RawGds Raw.RawGdsCheck.\n"
        "Open Scope Z_scope.\n")
 MODEL_TARGETS = ["Raw/RawGdsCheck.vo"]
-PROOF_FILES = ["Raw/RawGds_proofs.v", "Raw/RawGdsSafe_proofs.v"]
+PROOF_FILES = ["Raw/RawGds_proofs.v", "Raw/RawGdsSafe_proofs.v", "Raw/RawGdsNets_proofs.v"]
 
 # ------------------------------------------------------------------ which code does the tree carry
 CFG_FIELDS = ["dims", "cap", "deg", "lattice", "emptyxy", "mag", "width", "contains", "pico", "pathdiag"]
@@ -120,6 +120,8 @@ POLY_TEMPLATES = [
     [(0, 0), (5, 0), (5, 4), (0, 4), (1, 2)],                               # pentagon with a pass-through vertex (C13 witness)
     [(2, 0), (4, 0), (6, 2), (6, 4), (4, 6), (2, 6), (0, 4), (0, 2)],       # octagon
     [(0, 0), (4, 0), (6, 3), (2, 3)],                                       # parallelogram (4 vertices, not a rectangle)
+    [(0, 0), (6, 0), (6, 5), (2, 5)],                                       # right trapezoid: three axis-parallel sides
+    [(0, 0), (0, 6), (3, 6), (3, 2)],                                       # right trapezoid, the other way round
     [(0, 0), (6, 0), (6, 6), (4, 6), (4, 4), (2, 4), (2, 6), (0, 6), (0, 3)],  # notch + collinear vertex
     [(0, 0), (4, 0), (4, 4), (0, 4), (0, 2)],                               # square with a collinear vertex (5 vertices)
     [(0, 0), (3, 0), (3, 1), (1, 1), (1, 2), (3, 2), (3, 3), (0, 3)],       # C
@@ -341,6 +343,15 @@ def directed_cases():
     add("d_path_diag_label", [mkstruct("top", [e_path(1, 0, [0, 0, 10, 10], 4), e_text("A", 1, 0, (50, 5))])])
     add("d_path_diag", [mkstruct("top", [e_path(1, 0, [0, 0, 10, 10], 4), e_text("A", 2, 0, (5, 5))])])
     add("d_path_1pt_label", [mkstruct("top", [e_path(1, 0, [3, 3], 4), e_text("A", 1, 0, (3, 3))])])
+    # four-vertex boundaries that are ALMOST rectangles (three axis-parallel sides, one slanted): every start vertex and both
+    # windings, so that each of the importer's two rectangle patterns meets a non-rectangle that satisfies all but one of its tests
+    for quad in ([(0, 0), (10, 0), (10, 10), (3, 10)], [(0, 0), (0, 10), (5, 10), (5, 5)], [(0, 0), (10, 0), (10, 6), (-4, 6)],
+                 [(0, 0), (10, 0), (7, 6), (0, 6)]):
+        for rev in (False, True):
+            q0 = quad if not rev else [quad[0]] + quad[:0:-1]
+            for st in range(4):
+                q = q0[st:] + q0[:st]
+                add("d_near_rectangle", [mkstruct("top", [e_boundary(1, 0, closed(q)), e_text("A", 1, 0, (9, 9))])])
     # labels on a rectangle: inside, edge, corner, outside, other layer, two names, case
     R = e_boundary(4, 0, rect_xy(0, 0, 10, 6))
     for q in ((5, 3), (0, 3), (10, 6), (11, 3), (5, -1), (5, 7)):
